@@ -282,7 +282,11 @@ def run_case(case, ctx):
     rec.evaluation()
     with warnings.catch_warnings():
         warnings.simplefilter("ignore")
-        doc = gen.build_doc(spec)
+        try:
+            doc = gen.build_doc(spec)
+        except Exception as exc:
+            rec.outcome("build-refused:" + type(exc).__name__)
+            return
         ns = nodes(doc)
         idxs = case.get("nodes") or range(len(ns))
         for i in idxs:
